@@ -328,9 +328,9 @@ def select1(ctx: Ctx, chk) -> None:
         chk.ok(rule2, key, "direction refuted by SELECT-1; totality not applicable", loc, sample=False)
 
 
-def _private_helper_of_owners(ctx: Ctx, f) -> bool:
-    """A private Gateway method called only by Gateway.__init__ / the protocol_version setter."""
-    if f.cls is None or f.cls.fq != GW or not f.name.startswith("_") or f.name.startswith("__"):
+def _private_helper_of_owners(ctx: Ctx, f, depth: int = 0) -> bool:
+    """A private Gateway method called only by Gateway.__init__ / the protocol_version setter - or by other such helpers."""
+    if f.cls is None or f.cls.fq != GW or not f.name.startswith("_") or f.name.startswith("__") or depth > 3:
         return False
     callers = []
     for g_ in ctx.prog.all_functions():
@@ -338,7 +338,7 @@ def _private_helper_of_owners(ctx: Ctx, f) -> bool:
             continue
         if any(isinstance(x, ast.Attribute) and x.attr == f.name for x in ctx.own_nodes(g_)):
             callers.append(g_)
-    return bool(callers) and all(g_.cls is f.cls and (g_.name == "__init__" or g_.is_setter()) for g_ in callers)
+    return bool(callers) and all(g_.cls is f.cls and (g_.name == "__init__" or g_.is_setter() or _private_helper_of_owners(ctx, g_, depth + 1)) for g_ in callers)
 
 
 def copies1(ctx: Ctx, chk) -> None:
